@@ -183,6 +183,33 @@ def gen_case(rng, k):
     return (cur, ops)
 
 
+def grid_cases():
+    """every ring position x every offset: one item, every frame executed; it must run at exactly the N-th advance"""
+    out = []
+    for cur in range(DEPTH):
+        for n in range(DEPTH):
+            ops = [("s", n, 2 + (cur + n) % 10, cur, n, 1000 + cur * DEPTH + n, n - 12)]
+            for _ in range(DEPTH + 2):
+                ops += [("x",), ("a",)]
+            out.append((cur, ops))
+    return out
+
+
+def sort_cases(vals, maxn):
+    """every priority pattern over `vals` for every bucket size: the order of ties is compared with the model"""
+    out = []
+    for n in range(1, maxn + 1):
+        for code in range(len(vals) ** n):
+            ops = []
+            c = code
+            for i in range(n):
+                ops.append(("s", 3, 2 + i, i, n, code & 65535, vals[c % len(vals)]))
+                c //= len(vals)
+            ops += [("a",), ("a",), ("a",), ("x",)]
+            out.append(((n + code) % DEPTH, ops))
+    return out
+
+
 def malformed_case(rng, k):
     r = rng
     n = r.choice([0, 1, 3, 9, 20])
@@ -390,6 +417,18 @@ def run(ctx):
     n = 2500 if ctx.tier == "quick" else 60000
     cases = [gen_case(rng, k) for k in range(n)]
     cases += [malformed_case(rng, k) for k in range(n // 10)]
+    ngen = len(cases)
+    corpus = os.path.join(ROOT, "corpus", "C08", "lines.txt")
+    if os.path.exists(corpus):
+        with open(corpus) as f:
+            for l in f:
+                l = l.strip()
+                if l and not l.startswith("#"):
+                    v = [int(x) for x in l.split()]
+                    cases.append((v[0], [("corpus", v[1:])]))
+    cases += grid_cases()
+    cases += sort_cases([0, 1, 2], 6) if ctx.tier == "quick" else sort_cases([-1, 0, 1, 32767], 8)
+    ctx.count("grid+sort-sweep cases", len(cases) - ngen)
     lines = [" ".join(map(str, flat(c))) for c in cases]
     outs = run_harness(ctx, binp, lines)
     impl = [[int(x) for x in o.split()] for o in outs]
@@ -399,6 +438,9 @@ def run(ctx):
     nops = 0
     for k, c in enumerate(cases):
         nops += len(c[1])
+        if c[1] and c[1][0][0] == "corpus":
+            ctx.count("corpus")
+            continue
         if c[1] and c[1][0][0] == "raw":
             ctx.count("malformed")
             ctx.count("malformed-rejected" if impl[k] == [-999] else "malformed-accepted")
@@ -415,5 +457,6 @@ def run(ctx):
         ctx.sample(dict(line=lines[k][:300], impl=impl[k][:60]))
     ctx.extra["rule"] = ("histories of 4..130 operations in 9 modes (mixed, firmware frame loop, bucket filling, equal priorities, wild offsets/"
                          "callbacks/unterminated sets, full ring walk, sets), every start position of the ring, offsets biased to 0/24, "
-                         "priorities from {0}, {-1,0,1}, int16 edges or uniform; plus a malformed int stream. distinct_nontrivial = distinct "
+                         "priorities from {0}, {-1,0,1}, int16 edges or uniform; plus a malformed int stream, the 25x25 grid (ring position x offset, every frame "
+                         "executed) and every priority pattern over 3 values for buckets of 1..6 items (thorough: 4 values, 1..8 items). distinct_nontrivial = distinct "
                          "(domain, feature set reached: overflow/full/wrap/ties/reordered/reset/set shapes, start position class) keys")
